@@ -88,6 +88,8 @@ export async function check(group, records) {
     const msg = rec.diags[0].msg;
     return [violated({ ...base, oracle: 'resolvable type resolves without diagnostic', sig: `C16/unexpected-diagnostic/${msg.replace(/\W+/g, '_').slice(0, 40)}/${group.feature.split('|')[2]}`, detail: { diags: rec.diags, ops: group.feature } })];
   }
+  // an output that is not a program delivers nothing to the runtime (the input did parse)
+  if (rec.exec == null && /does not parse/.test(String(rec.exec_declined))) return [violated({ ...base, oracle: 'the output module can be loaded', sig: `C16/output-does-not-parse`, detail: short(rec.exec_declined, 200) })];
   if (rec.exec == null) return [inconclusive({ ...base, reason: `exec declined: ${rec.exec_declined}` })];
   const { rt, error, cleanup } = await loadModule(rec.exec, ENV);
   try {
